@@ -93,6 +93,7 @@ type c16Row struct {
 	Dir    string // ok, uncreatable
 	Text   int    // which spelling of the mode file (see c16ModeTexts); 0 = the plain one
 	Start  int    // Config.UploadStartTime in days from now (0: not set)
+	Debug  int    // 0: no debug directory; 1: an empty one (the user asked for logs); 2: one that has a sidecar.log already
 }
 
 // c16ModeTexts: spellings of a mode file that all read as the same mode (the mode is the first word;
@@ -118,7 +119,7 @@ func (r c16Row) modeText() string {
 }
 
 func (r c16Row) String() string {
-	return fmt.Sprintf("marker=%s crash=%v upload=%v mode=%s(%q) token=%s dir=%s uploadStart=%+dd", r.Marker, r.Crash, r.Upload, r.Mode, r.modeText(), r.Token, r.Dir, r.Start)
+	return fmt.Sprintf("marker=%s crash=%v upload=%v mode=%s(%q) token=%s dir=%s uploadStart=%+dd debugDir=%d", r.Marker, r.Crash, r.Upload, r.Mode, r.modeText(), r.Token, r.Dir, r.Start, r.Debug)
 }
 
 // c16Model: how many children the row must launch, and with which upload flag.
@@ -208,6 +209,12 @@ func c16RunRow(t c16Fataler, base, exe string, r c16Row) {
 			// telemetry was in use before it was turned off: the data directory exists
 			os.MkdirAll(filepath.Join(tdir, "local"), 0777)
 			os.WriteFile(filepath.Join(tdir, "local", "weekends"), []byte("1\n"), 0666)
+		}
+		if r.Debug > 0 {
+			os.MkdirAll(filepath.Join(tdir, "debug"), 0777)
+			if r.Debug == 2 {
+				os.WriteFile(filepath.Join(tdir, "debug", "sidecar.log"), []byte("earlier output\n"), 0666)
+			}
 		}
 		if r.Token != "absent" {
 			os.MkdirAll(filepath.Join(tdir, "local"), 0777)
@@ -376,12 +383,13 @@ func c16AllRows() []c16Row {
 								if st != 0 && (!up || v != 0) {
 									continue // the start time only matters to upload-enabled starts
 								}
-								rows = append(rows, c16Row{m, crash, up, mode, tok, "ok", v, st})
+								// (the debug directory is not a dimension of the table: its three states are dealt out in turn)
+								rows = append(rows, c16Row{m, crash, up, mode, tok, "ok", v, st, len(rows) % 3})
 							}
 						}
 					}
 				}
-				rows = append(rows, c16Row{m, crash, up, "missing", "absent", "uncreatable", 0, 0})
+				rows = append(rows, c16Row{m, crash, up, "missing", "absent", "uncreatable", 0, 0, 0})
 			}
 		}
 	}
@@ -420,6 +428,9 @@ func TestVerifC16Rows(t *testing.T) {
 			}
 		} else {
 			r = rows[rapid.IntRange(0, len(rows)-1).Draw(t, "row")]
+		}
+		if r.Dir == "ok" {
+			r.Debug = rapid.IntRange(0, 2).Draw(t, "debugDir")
 		}
 		c16RunRow(t, base, exe, r)
 		launch, _ := c16Model(r)
